@@ -9,6 +9,7 @@ mod node;
 mod props;
 mod universe;
 mod world;
+mod zoo;
 
 use crate::core::*;
 use std::path::PathBuf;
